@@ -192,6 +192,23 @@ pub fn check_invariants(w: &World, net: &Net, inv: &mut Inv, what: &str) {
                 ));
             }
         }
+        // I6 (C13 seen from the wire): "it picks nothing exactly when no such piece exists" - an unchoking peer that
+        // advertises a piece nobody is fetching and the client lacks must be given one
+        if matches!(cr.kind, "RecvUnchoke" | "PieceDone") && cr.peer_piece_after.is_none() {
+            if let Some(rp) = net.peers.iter().find(|rp| rp.addr == cr.addr) {
+                if !rp.chokes_client && !rp.closed && rp.sent_handshake {
+                    let done = if cr.kind == "PieceDone" { cr.peer_piece_before } else { None };
+                    if let Some(i) = (0..cr.before.len().min(rp.client_view.len()))
+                        .find(|i| cr.before[*i] == Status::Missing && cr.after[*i] == Status::Missing && rp.client_view[*i] && Some(*i) != done)
+                    {
+                        inv.fails.push((
+                            "c13-nothing-picked-although-candidate-exists".into(),
+                            format!("{}: on {} from {} the manager picked nothing although the peer advertises piece {} which is Missing (statuses {:?})", what, cr.kind, cr.addr, i, cr.before),
+                        ));
+                    }
+                }
+            }
+        }
         if matches!(cr.kind, "RecvUnchoke" | "RecvHave" | "PieceDone" | "PieceCancel") {
             if let Some(i) = cr.peer_piece_after {
                 let newly = cr.peer_piece_before != Some(i) || cr.kind != "RecvHave";
